@@ -522,6 +522,15 @@ func checkLegacyRootResave(c *Ctx) {
 	isSave := func(in ssa.Instruction) bool { cc := callCommon(in); return cc != nil && predStatic(saveNode)(cc) }
 	isRef := func(in ssa.Instruction) bool { cc := callCommon(in); return cc != nil && predStatic(saveRoot)(cc) }
 	// "no reference root pending a re-save": true at entry, false after SaveRoot, true again after SaveNode / on the not-legacy edge
+	// the statements may live in a helper method SaveVersion delegates to (one level)
+	if len(callsIn(sv, predStatic(saveRoot))) == 0 {
+		for _, in := range callsIn(sv, func(cc *ssa.CallCommon) bool {
+			g := staticCallee(cc)
+			return g != nil && l.inModule(g) && len(g.Blocks) > 0 && len(callsIn(g, predStatic(saveRoot))) > 0
+		}) {
+			sv = staticCallee(callCommon(in))
+		}
+	}
 	q := mustStateE(sv, true, isSave, isRef, notLegacy)
 	n := 0
 	for _, in := range callsIn(sv, predStatic(saveRoot)) {
@@ -531,7 +540,7 @@ func checkLegacyRootResave(c *Ctx) {
 		var bad ssa.Instruction
 		searchFrom([]point{after(in)}, func(x ssa.Instruction) bool {
 			if r, isRet := x.(*ssa.Return); isRet {
-				if errNilness(retVal(r, 2), r.Block(), 0) <= 0 && !q(r) {
+				if errNilness(retVal(r, errResultIndex(sv.Signature)), r.Block(), 0) <= 0 && !q(r) {
 					ok, bad = false, r
 				}
 				return true
@@ -592,7 +601,11 @@ func checkLegacySyntheticKey(c *Ctx) {
 				}
 			}
 			n++
-			c.decide(R, l.fname(fn)+" saves "+path, l.ipos(in), !onLegacy, "not on an `isLegacy` edge of the saved node",
+			key := l.fname(fn) + " saves " + path
+			if onLegacy {
+				key = "SaveNode(" + path + ") on the isLegacy edge of the saved node" // independent of the function the statements live in
+			}
+			c.decide(R, key, l.ipos(in), !onLegacy, "not on an `isLegacy` edge of the saved node",
 				"a node known to come from the legacy format is saved under its own node key, which is (legacy version, 0) for every legacy node of that version: a second such node of the same version overwrites the first, and the version that referenced the first silently gets another root")
 		}
 	}
